@@ -377,9 +377,9 @@ pub fn build(e: &mut Ent, o: &Opts) -> ElfSpec {
     let mut junk = e.u32() | 1;
     for b in blobs {
         // gaps of junk between the blobs; rarely a large one, so that file offsets exceed 16 bits
-        let gap = match e.below(40) {
+        let gap = match e.below(160) {
             0 => 0x1_0000 + e.below(0x800),
-            1..=19 => 0,
+            1..=79 => 0,
             _ => e.below(24),
         };
         for _ in 0..gap {
